@@ -208,7 +208,7 @@ def build_arg(t, depth, d):
     from fibertree import Fiber
     coords = [c for c, _ in t]
     if depth == 1:
-        f = Fiber(coords, [s for _, s in t]) if coords else Fiber([], [])
+        f = Fiber(coords, [dress(s, c) for c, s in t]) if coords else Fiber([], [])
         f._setDefault(d)
     else:
         # interior argument fibers keep whatever default an unowned fiber guesses (a scalar 0 when
@@ -303,11 +303,24 @@ def pay_obs(p):
     return [0, p]
 
 
+class SubInt(int):
+    """an int subclass (as enum.IntEnum members, numpy-like scalars, user value types are): every leaf must
+    still be stored singly boxed whatever the concrete type of the value handed to a mutator"""
+    __slots__ = ()
+
+
+def dress(v, salt=0):
+    """the value handed to the implementation: every third one as an int subclass (deterministic in the case)"""
+    if v is None or isinstance(v, bool) or not isinstance(v, int):
+        return v
+    return SubInt(v) if (v + salt) % 3 == 0 else v
+
+
 def apply_w(ref, w):
     if w[0] == "assign":
-        ref <<= w[1]
+        ref <<= dress(w[1], 1)
     elif w[0] == "add":
-        ref += w[1]
+        ref += dress(w[1], 1)
     return ref
 
 
@@ -380,7 +393,7 @@ def do_op(T, n, o, d=0):
     if k == "append":
         if len(path) + 1 != n or f is None:
             return [2]
-        f.append(o[2], o[3])
+        f.append(o[2], dress(o[3], o[2]))
         return [0, []]
     if k == "setitem":
         if not (len(path) + 1 == n or (len(path) < n and o[4] is None)) or f is None:
@@ -389,7 +402,7 @@ def do_op(T, n, o, d=0):
             # CoordPayload(None, None): nothing to do; the model keeps both
             f[o[2]] = CoordPayload(None, None)
         else:
-            f[o[2]] = CoordPayload(o[3], o[4])
+            f[o[2]] = CoordPayload(o[3], dress(o[4], o[2]))
         return [0, []]
     if k == "clear":
         if not len(path) < n or f is None:
